@@ -212,12 +212,16 @@ Definition s_wr (r : wr_result) : bytes :=
 Section RunConn.
 Variable BUF : nat.
 
-Definition read_line (pre : bytes) (k : cst) (ev : read_ev) (rest' : bytes) (nfd' : nat) : cst * bytes :=
+Definition is_rd_ok (r : rd_result) : bool := match r with RdOk => true | _ => false end.
+
+Definition read_line (pre : bytes) (k : cst) (ev : read_ev) (rest' : bytes) (nfd' : nat) : cst * bytes * bool :=
   let '(c1, res, sys) := try_read BUF (k_conn k) ev in
   let '(c2, reqs) := drain (S (length (c_parsed c1))) c1 [] in
   (mkCst c2 rest' nfd',
    pre ++ B"rd=" ++ s_rd res ++ B" sys=" ++ bit sys ++ B" held=" ++ decn (length (c_files c2))
-   ++ flat_map (fun r => B" | " ++ s_req r) reqs).
+   ++ B" pend=" ++ bit (pending_write c2)
+   ++ flat_map (fun r => B" | " ++ s_req r) reqs,
+   is_rd_ok res).
 
 Definition write_line (pre : bytes) (k : cst) (ev : write_ev) : cst * bytes :=
   let '(c1, res, off) := try_write (k_conn k) ev in
@@ -225,48 +229,67 @@ Definition write_line (pre : bytes) (k : cst) (ev : write_ev) : cst * bytes :=
    pre ++ B"wr=" ++ s_wr res ++ B" off=" ++ match off with Some b => hex b | None => B"none" end
    ++ B" pend=" ++ bit (pending_write c1)).
 
-Definition run_conn_op (id : N) (i : nat) (k : cst) (op : arg) : cst * bytes :=
+(* Take n with nf descriptors: the stream hands over min(n, room, remaining) bytes *)
+Definition take_step (pre : bytes) (k : cst) (n nf : N) : cst * bytes * bool :=
+  let c := k_conn k in
+  let fds := seqn (k_nextfd k) (N.to_nat nf) in
+  let nfd' := (k_nextfd k + N.to_nat nf)%nat in
+  if (BUF <=? length (c_win c))%nat then read_line pre k (REof []) (k_rest k) (k_nextfd k)
+  else
+    let room := (BUF - length (c_win c))%nat in
+    let kk := Nat.min (N.to_nat (N.min n (N.of_nat room))) (length (k_rest k)) in
+    match kk with
+    | O => read_line pre k (REof fds) (k_rest k) nfd'
+    | _ => read_line pre k (RData (firstn kk (k_rest k)) fds) (skipn kk (k_rest k)) nfd'
+    end.
+
+(* repeat Take n until the stream is exhausted or a read does not return Ok *)
+Fixpoint drain_reads (fuel : nat) (pre : bytes) (k : cst) (n : N) : cst * list bytes :=
+  match fuel with
+  | O => (k, [])
+  | S f =>
+    match k_rest k with
+    | [] => (k, [])
+    | _ =>
+      let '(k', line, ok) := take_step pre k n 0 in
+      if ok then let '(k'', ls) := drain_reads f pre k' n in (k'', line :: ls)
+      else (k', [line])
+    end
+  end.
+
+Definition run_conn_op (id : N) (i : nat) (k : cst) (op : arg) : cst * list bytes :=
   let pre := B"conn " ++ dec id ++ B" " ++ decn i ++ B" " in
   let c := k_conn k in
+  let one (x : cst * bytes) := (fst x, [snd x]) in
   match op with
-  | AL [AN 0; AN n; AN nf] =>
-      (* Take n: the stream hands over min(n, room, remaining) bytes with nf descriptors *)
-      let fds := seqn (k_nextfd k) (N.to_nat nf) in
-      let nfd' := (k_nextfd k + N.to_nat nf)%nat in
-      if (BUF <=? length (c_win c))%nat then read_line pre k (REof []) (k_rest k) (k_nextfd k)
-      else
-        let room := (BUF - length (c_win c))%nat in
-        let kk := Nat.min (Nat.min (N.to_nat n) room) (length (k_rest k)) in
-        match kk with
-        | O => read_line pre k (REof fds) (k_rest k) nfd'
-        | _ => read_line pre k (RData (firstn kk (k_rest k)) fds) (skipn kk (k_rest k)) nfd'
-        end
-  | AL [AN 1; AN e] => read_line pre k (RFail (Z.of_N e)) (k_rest k) (k_nextfd k)
+  | AL [AN 0; AN n; AN nf] => let '(k', line, _) := take_step pre k n nf in (k', [line])
+  | AL [AN 1; AN e] => let '(k', line, _) := read_line pre k (RFail (Z.of_N e)) (k_rest k) (k_nextfd k) in (k', [line])
+  | AL [AN 2; AN n] => drain_reads (S (length (k_rest k))) pre k n
   | AL [AN 3; AN n] =>
       (* the stream accepts min(n, len) bytes *)
       let len := match c_rbuf c with
                  | Some b => length b
                  | None => match c_rq c with r :: _ => length (serialize r) | [] => O end
                  end in
-      write_line pre k (WWrote (Nat.min (N.to_nat n) len))
-  | AL [AN 4] => write_line pre k WIntr
-  | AL [AN 5] => write_line pre k WFail
-  | AL [AN 5; AN _] => write_line pre k WFail
+      one (write_line pre k (WWrote (N.to_nat (N.min n (N.of_nat len)))))
+  | AL [AN 4] => one (write_line pre k WIntr)
+  | AL [AN 5] => one (write_line pre k WFail)
+  | AL [AN 5; AN _] => one (write_line pre k WFail)
   | AL [AN 7; r] =>
       let c' := enqueue_response c (response_of r) in
-      (mkCst c' (k_rest k) (k_nextfd k), pre ++ B"enq pend=" ++ bit (pending_write c'))
+      (mkCst c' (k_rest k) (k_nextfd k), [pre ++ B"enq pend=" ++ bit (pending_write c')])
   | AL [AN 9] =>
       let c' := clear_write_buffer c in
-      (mkCst c' (k_rest k) (k_nextfd k), pre ++ B"clr pend=" ++ bit (pending_write c'))
+      (mkCst c' (k_rest k) (k_nextfd k), [pre ++ B"clr pend=" ++ bit (pending_write c')])
   | AL [AN 10; AN n] =>
-      (mkCst (set_payload_max_size c n) (k_rest k) (k_nextfd k), pre ++ B"lim")
-  | _ => (k, pre ++ B"?")
+      (mkCst (set_payload_max_size c n) (k_rest k) (k_nextfd k), [pre ++ B"lim"])
+  | _ => (k, [pre ++ B"?"])
   end.
 
 Fixpoint run_conn_ops (id : N) (i : nat) (k : cst) (ops : list arg) : list bytes :=
   match ops with
   | [] => []
-  | op :: r => let '(k', line) := run_conn_op id i k op in line :: run_conn_ops id (S i) k' r
+  | op :: r => let '(k', lines) := run_conn_op id i k op in lines ++ run_conn_ops id (S i) k' r
   end.
 
 Definition run_conn (id L : N) (stream : bytes) (ops : list arg) : list bytes :=
